@@ -107,46 +107,70 @@ theorem malloc_inert (s : StaticPool) (n : Nat) (h : (s.malloc n).1 = none) : (s
   · simp [hn] at h
 
 /-! ### calloc -/
-theorem calloc_refines (s : StaticPool) (c k : Nat) (m : Mem) (h : s.Inv) (hck : c * k < sizeMod) :
+theorem calloc_overflow (s : StaticPool) (c k : Nat) (m : Mem) (h : sizeMod ≤ c * k) :
+    s.calloc c k m = (none, s, m) := by
+  have := (mulOverflows_iff c k).2 h
+  simp [calloc, SPoolCore.calloc, this]
+
+theorem calloc_refines (s : StaticPool) (c k : Nat) (m : Mem) (h : s.Inv) (hsz : s.core.size < sizeMod) :
     (s.calloc c k m).1 = (s.abs.calloc c k).1 ∧ (s.calloc c k m).2.1.abs = (s.abs.calloc c k).2 := by
   have hu : s.abs.used = s.core.free := (used_abs s h).symm
   have hs : s.abs.size = s.core.size := rfl
-  have hmod : c * k % sizeMod = c * k := Nat.mod_eq_of_lt hck
-  unfold calloc SPoolCore.calloc SPoolCore.malloc SPool.calloc; dsimp only
-  rw [hmod, hu, hs]
-  by_cases hn : c * k > s.core.size - s.core.free
-  · have : ¬ c * k ≤ s.core.size - s.core.free := by omega
-    simp [hn, this]
-  · have : c * k ≤ s.core.size - s.core.free := by omega
-    simp [hn, this, abs]
+  by_cases hov : sizeMod ≤ c * k
+  · rw [calloc_overflow s c k m hov]
+    unfold SPool.calloc
+    rw [hu, hs]
+    have : ¬ c * k ≤ s.core.size - s.core.free := by omega
+    simp [this]
+  · have hno : mulOverflows c k = false := by
+      cases hm : mulOverflows c k
+      · rfl
+      · exact (hov ((mulOverflows_iff c k).1 hm)).elim
+    have hmod : c * k % sizeMod = c * k := Nat.mod_eq_of_lt (by omega)
+    unfold calloc SPoolCore.calloc SPoolCore.malloc SPool.calloc; dsimp only
+    rw [hno, hmod, hu, hs]
+    by_cases hn : c * k > s.core.size - s.core.free
+    · have : ¬ c * k ≤ s.core.size - s.core.free := by omega
+      simp [hn, this]
+    · have : c * k ≤ s.core.size - s.core.free := by omega
+      simp [hn, this, abs]
 
 theorem calloc_inv (s : StaticPool) (c k : Nat) (m : Mem) (h : s.Inv) : (s.calloc c k m).2.1.Inv := by
   obtain ⟨h1, h2, h3, h4, h5, h6, h7⟩ := h
   unfold calloc SPoolCore.calloc SPoolCore.malloc; dsimp only
-  by_cases hn : c * k % sizeMod > s.core.size - s.core.free
-  · simp only [hn, if_true]; exact ⟨h1, h2, h3, h4, h5, h6, h7⟩
-  · simp only [hn, if_false]
-    refine ⟨by dsimp only; omega, by dsimp only; omega, by simpa using h3, ?_, ?_, by simp, ?_⟩
-    · simp only [blocksLen]; omega
-    · simp only [layoutB, h5, Bool.and_true, beq_iff_eq]; exact h4
-    · intro _; exact ⟨rfl, rfl⟩
+  cases mulOverflows c k
+  · simp only [Bool.false_eq_true, if_false]
+    by_cases hn : c * k % sizeMod > s.core.size - s.core.free
+    · simp only [hn, if_true]; exact ⟨h1, h2, h3, h4, h5, h6, h7⟩
+    · simp only [hn, if_false]
+      refine ⟨by dsimp only; omega, by dsimp only; omega, by simpa using h3, ?_, ?_, by simp, ?_⟩
+      · simp only [blocksLen]; omega
+      · simp only [layoutB, h5, Bool.and_true, beq_iff_eq]; exact h4
+      · intro _; exact ⟨rfl, rfl⟩
+  · simp only [if_true]; exact ⟨h1, h2, h3, h4, h5, h6, h7⟩
 
 /-- the `memset` of calloc stays inside the region -/
 theorem calloc_nofault (s : StaticPool) (c k : Nat) (m : Mem) (h : s.Inv) :
     (s.calloc c k m).2.2 = m := by
   obtain ⟨h1, h2, h3, _⟩ := h
   unfold calloc SPoolCore.calloc SPoolCore.malloc; dsimp only
-  by_cases hn : c * k % sizeMod > s.core.size - s.core.free
-  · simp [hn]
-  · have : s.core.free + c * k % sizeMod ≤ s.core.bytes.length := by omega
-    simp [hn, this]
+  cases mulOverflows c k
+  · simp only [Bool.false_eq_true, if_false]
+    by_cases hn : c * k % sizeMod > s.core.size - s.core.free
+    · simp [hn]
+    · have : s.core.free + c * k % sizeMod ≤ s.core.bytes.length := by omega
+      simp [hn, this]
+  · simp
 
 theorem calloc_inert (s : StaticPool) (c k : Nat) (m : Mem) (h : (s.calloc c k m).1 = none) :
     (s.calloc c k m).2.1 = s := by
   unfold calloc SPoolCore.calloc SPoolCore.malloc at *; dsimp only at *
-  by_cases hn : c * k % sizeMod > s.core.size - s.core.free
-  · simp [hn]
-  · simp [hn] at h
+  cases hm : mulOverflows c k
+  · simp only [hm, Bool.false_eq_true, if_false] at h ⊢
+    by_cases hn : c * k % sizeMod > s.core.size - s.core.free
+    · simp [hn]
+    · simp [hn] at h
+  · simp
 
 /-! ### free -/
 theorem release_refines (s : StaticPool) (p : Option Nat) (h : s.Inv) :
